@@ -2127,6 +2127,21 @@ func ruleTOCConfigFlow(r *Run) {
 			}
 			if !fromParam {
 				defaultCollectors[topLevel(fn)] = c.Pos()
+				// an update has no configuration of its own: its level is the default, or something read
+				// out of the table of contents being updated — not a configuration remembered in the
+				// Document, which belongs to whichever GenerateTOC call ran last, not to this table
+				sl := newSlicer(p)
+				sl.dataOnly = true
+				var remembered []string
+				for f := range sl.Slice(lvl).fieldsReadOf(p, map[string]bool{"Document": true}) {
+					if f != "Document.Body" {
+						remembered = append(remembered, f)
+					}
+				}
+				sort.Strings(remembered)
+				r.Check("toc-config-flow", shortName(topLevel(fn))+":level-source", c.Pos(), len(remembered) == 0,
+					fmt.Sprintf("%s collects headings with a level that is not an argument: %s", shortName(topLevel(fn)),
+						map[bool]string{true: "it does not come from state remembered in the Document", false: "it is read from " + strings.Join(remembered, ", ") + " — a document-wide remembered configuration is that of the LAST GenerateTOC call, so a table generated with another depth is rebuilt with the wrong level"}[len(remembered) == 0]))
 			}
 		})
 	}
